@@ -19,7 +19,7 @@ connection), which is itself the specification `authorization_is_pure` states.
 | the decision depends on nothing but (route, headers) — not on the state, earlier requests or the connection | `authorization_is_pure`, `served_iff_authorized` (handler runs ⇔ `Authorized`: swissnum header first, every secret value well formed, kinds present = kinds required), `matched_route_is_generated`, `all_routes_wrapped_by_authorization`, `route_table_documented`, `route_table_modelled`, `secret_names_documented`.  That the real server keeps no per-connection memory is correspondence/monitor only (keep-alive sequences in harness/props/c30.py) |
 | "requests with missing or malformed secrets are rejected without side effects" | `bad_secrets_no_effect` (400 / 500, state unchanged), `accepted_secrets_well_formed`, `handler_receives_collected_secrets` (exactly which value sets are accepted and what the handler receives) |
 | "writes to or aborts of an in-progress upload require that upload's secret" | `upload_secret_required` (any state change by PATCH / PUT …/abort on an upload in progress ⇒ gate passed and presented secret = that upload's, whichever other uploads exist) |
-| … and nothing else removes or replaces an upload in progress (an allocation in particular) | `upload_untouched_without_its_secret` (one request), `uploads_change_only_by_their_own_secret` (histories), `allocate_leaves_uploads_alone`.  Timeouts and disconnects (`BucketWriter._abort_due_to_timeout`, `disconnected`) are outside the request model: not covered |
+| … and nothing else removes or replaces an upload in progress (an allocation in particular) | `upload_untouched_without_its_secret` (one request), `uploads_change_only_by_their_own_secret` (histories), `allocate_leaves_uploads_alone`; with timeouts and disconnects (`BucketWriter._abort_due_to_timeout`, `disconnected`) as request-independent events: `uploads_change_only_by_secret_or_timeout`, `timeout_removes_only_its_upload` |
 | "mutable writes require the write enabler" | `enabler_required` (any state change by read-test-write on a slot holding a share — existing, new or mixed share numbers — ⇒ presented enabler = every existing share's) |
 | … whichever node recorded the share (shares copied to / served by a node with another nodeid) | `enabler_decision_ignores_nodeid`, `rtw_refused_iff_enabler_differs`, `rtw_refused_changes_nothing`, `migration_keeps_enablers` |
 | quantifier "histories … interleaved with legitimate uploads by other clients" | `unauthorized_requests_are_noops` (final state and the answers to the authorized requests are those of the history without the unauthorized ones) |
@@ -391,5 +391,40 @@ example :
     ssRtw st si [8] ([], []) ⟨[(0, ⟨[], [(0, [7])], none⟩)], []⟩ = none ∧
     (ssRtw st si [9] ([5], [6]) ⟨[(0, ⟨[], [(0, [7])], none⟩), (1, ⟨[], [(0, [4])], none⟩)], []⟩).map (·.1.muts)
       = some [((si, 0), ⟨[9], [7, 2, 3], [([5], [6])], [1]⟩), ((si, 1), ⟨pad32 [9], [4], [([5], [6])], [2]⟩)] := by decide
+
+/-! ### requests and timeouts together -/
+
+/-- **Histories of requests and timeouts / disconnects.**  An upload in progress is still there, exactly as it was, after
+any history of events none of which is its own timeout / disconnect or a served write / abort presenting its secret:
+other uploads timing out, other clients allocating, writing, aborting, leasing change nothing about it. -/
+theorem uploads_change_only_by_secret_or_timeout (sw : Bytes) (st : State) (evs : List Event) (k : Key) (u : Upload)
+    (h : lookupK k st.up = some u) (hno : ∀ e ∈ evs, ¬ concerns sw k u.secret e) :
+    lookupK k (runEvents sw st evs).up = some u :=
+  runEvents_up sw st evs k u h hno
+
+/-- a timeout / disconnect removes its own upload and nothing else: other uploads, finished shares, mutable shares and
+advisories are untouched -/
+theorem timeout_removes_only_its_upload (st : State) (k : Key) :
+    lookupK k (expire st k).up = none ∧ (∀ k', k' ≠ k → lookupK k' (expire st k).up = lookupK k' st.up) ∧
+    (expire st k).imm = st.imm ∧ (expire st k).muts = st.muts ∧ (expire st k).advisories = st.advisories := by
+  refine ⟨?_, fun k' hk => expire_up_ne st k' k hk, rfl, rfl, rfl⟩
+  unfold expire lookupK eraseK
+  cases hf : List.find? (fun e => decide (e.1 = k)) (List.filter (fun e => decide (e.1 ≠ k)) st.up) with
+  | none => rfl
+  | some e =>
+    have h1 := List.find?_some hf
+    have h2 := List.mem_of_find?_eq_some hf
+    rw [List.mem_filter] at h2
+    simp at h1 h2
+    exact absurd h1 h2.2
+
+-- two uploads; share 0 times out, then its owner's write finds nothing (404) while share 1 is exactly as before
+example :
+    let si := "aaaaaaaaaaaaaaaaaaaaaaaaaa"
+    let x : List Bytes := [[117, 112, 108, 111, 97, 100, 45, 115, 101, 99, 114, 101, 116, 32, 81, 85, 74, 68]]
+    let st : State := { up := [((si, 0), ⟨[65, 66, 67], [some 7, none], ([1], [2])⟩), ((si, 1), ⟨[9], [none, none], ([1], [2])⟩)] }
+    let w : Request := ⟨"PATCH", ["storage", "v1", "immutable", si, "0"], [authHeader [1]], x, .write (some ⟨"bytes", some (1, 2)⟩) [8]⟩
+    (runEvents [1] st [.expire (si, 0), .request w]).up = [((si, 1), ⟨[9], [none, none], ([1], [2])⟩)] ∧
+    (step [1] (expire st (si, 0)) w).2.status = 404 := by decide
 
 end Tahoe.C30
